@@ -4,7 +4,8 @@
 cd "$(dirname "$0")"
 T=${1:-quick}; shift
 PROPS=${@:-$(python3 -c "import json;print(' '.join(c['property_id'] for c in json.load(open('MANIFEST.json'))['checks']))")}
+mkdir -p work
 for p in $PROPS; do
-  ./check $p --tier $T > /tmp/run_all_$p.log 2>&1; echo "$p exit=$? $(tail -1 /tmp/run_all_$p.log | cut -c1-200)"
+  ./check $p --tier $T > work/run_all_$p.log 2>&1; echo "$p exit=$? $(tail -1 work/run_all_$p.log | cut -c1-200)"
   rm -rf work/$p/run
 done
